@@ -23,7 +23,8 @@
 (***************************************************************************)
 EXTENDS Naturals, Sequences, FiniteSets, TLC
 
-CONSTANTS Cap,        \* records per segment file before a new one is started (max_segment_size / record size)
+CONSTANTS Cap,        \* size of a segment file (in 4 KiB units) at which the next append starts a new one (max_segment_size)
+          Sizes,      \* sizes (in 4 KiB units) a record can have
           MaxLen,     \* max_rollback_log_len
           MaxRec,     \* bound: record ids
           MaxSeg,     \* bound: segment ids
@@ -33,13 +34,13 @@ CONSTANTS Cap,        \* records per segment file before a new one is started (m
 
 VARIABLES
     exists,     \* set of segment ids that have a file
-    content,    \* [1..MaxSeg -> Seq([id, ver, whole])]   records in each file; whole = FALSE: header only
+    content,    \* [1..MaxSeg -> Seq([id, ver, whole, units])]   records in each file; whole = FALSE: header only
     meta,       \* <<start, end>> live range in the manifest
     up,         \* the log is open in this process
     segs,       \* in-memory: Seq([id, min, max]) oldest first, last = head
     sLive, eLive,   \* in-memory live range of the SegmentedLog
     writer,     \* head_segment_writer is Some
-    wcount,     \* records below the writer's position (file_size / record size)
+    wcount,     \* the writer's file_size in 4 KiB units
     ring,       \* Rollback::in_memory.log : Seq([id, ver])
     pend,       \* pending_truncate: None or a record id (0 = nil)
     pc,         \* program counter of the running call
@@ -104,26 +105,28 @@ BeginCommit ==
 AppendHeader ==
     /\ pc = "append_hdr"
     /\ LET h == Last(segs).id IN
-       content' = [content EXCEPT ![h] = Append(@, [id |-> tmp.rid, ver |-> ver + 1, whole |-> FALSE])]
+       content' = [content EXCEPT ![h] = Append(@, [id |-> tmp.rid, ver |-> ver + 1, whole |-> FALSE, units |-> 0])]
     /\ ver' = ver + 1
     /\ pc' = "append_pay"
     /\ UNCHANGED <<exists, meta, up, segs, sLive, eLive, writer, wcount, ring, pend, tmp, truth, dtruth, avail, davail, crashes, failure>>
 
 \* payload + set_len + fsync, then the in-memory bookkeeping of append and Rollback::commit
-AppendPayload ==
+AppendPayloadU(u) ==
     /\ pc = "append_pay"
     /\ LET h == Last(segs).id
            n == Len(content[h]) IN
-       /\ content' = [content EXCEPT ![h][n].whole = TRUE]
+       /\ content' = [content EXCEPT ![h][n].whole = TRUE, ![h][n].units = u]
        /\ eLive' = tmp.rid
        /\ sLive' = IF sLive = 0 THEN tmp.rid ELSE sLive
        /\ segs' = [segs EXCEPT ![Len(segs)].min = IF @ = 0 THEN tmp.rid ELSE @, ![Len(segs)].max = tmp.rid]
-       /\ wcount' = wcount + 1
+       /\ wcount' = wcount + u
        /\ ring' = Append(ring, [id |-> tmp.rid, ver |-> ver])
        /\ truth' = Append(truth, [id |-> tmp.rid, ver |-> ver])
     /\ pc' = "sync_start" /\ tmp' = NoTmp
     /\ avail' = Min2(avail + 1, MaxLen)
     /\ UNCHANGED <<exists, meta, up, writer, pend, dtruth, davail, ver, crashes, failure>>
+
+AppendPayload == \E u \in Sizes : AppendPayloadU(u)
 
 -----------------------------------------------------------------------------
 (* Nomt::rollback(n): Rollback::truncate (in memory), then the same sync    *)
@@ -200,6 +203,10 @@ PosOf(f, e) ==
     LET P == {i \in 1..Len(content[f]) : content[f][i].id = e} IN
     IF P = {} THEN 0 ELSE CHOOSE i \in P : \A j \in P : i <= j
 
+\* size in units of the first p records of a file (the offset scan_record_end returns)
+RECURSIVE UnitsUpTo(_, _)
+UnitsUpTo(f, p) == IF p = 0 THEN 0 ELSE content[f][p].units + UnitsUpTo(f, p - 1)
+
 \* SegmentedLog::prune_recent(new_end)
 PruneRecent ==
     /\ pc = "prune_new"
@@ -229,7 +236,7 @@ PruneRecent ==
                       /\ UNCHANGED <<exists, content, segs, sLive, eLive, writer, wcount>>
                  ELSE /\ content' = [content EXCEPT ![f] = SubSeq(@, 1, p)]
                       /\ segs' = [segs EXCEPT ![idx].max = tmp.pe]
-                      /\ eLive' = tmp.pe /\ writer' = TRUE /\ wcount' = p
+                      /\ eLive' = tmp.pe /\ writer' = TRUE /\ wcount' = UnitsUpTo(f, p)
                       /\ pc' = DonePrune
                       /\ UNCHANGED <<exists, sLive>>
     /\ IF pc' = "failed" THEN TRUE ELSE failure' = failure
@@ -330,7 +337,7 @@ RecoverFinish ==
                  /\ segs' = [i \in 1..Len(tmp.live) |->
                                 [id |-> tmp.live[i], min |-> MinOfSeg(tmp.live[i]),
                                  max |-> IF i = Len(tmp.live) THEN meta[2] ELSE MaxOfSeg(tmp.live[i])]]
-                 /\ writer' = TRUE /\ wcount' = p
+                 /\ writer' = TRUE /\ wcount' = UnitsUpTo(h, p)
                  /\ sLive' = meta[1] /\ eLive' = meta[2]
                  /\ ring' = tmp.deliv /\ up' = TRUE /\ pc' = "idle" /\ tmp' = NoTmp /\ failure' = failure
     /\ UNCHANGED <<exists, meta, pend, truth, dtruth, avail, davail, ver, crashes>>
@@ -370,7 +377,7 @@ MemMatchesDisk ==
         /\ (ring # <<>>) => Last(ring).id = eLive
         /\ \A i \in 1..Len(segs) : content[segs[i].id] # <<>> => /\ MinOfSeg(segs[i].id) = segs[i].min
                                                                    /\ MaxOfSeg(segs[i].id) = segs[i].max
-        /\ writer => wcount = Len(content[Last(segs).id])
+        /\ writer => wcount = UnitsUpTo(Last(segs).id, Len(content[Last(segs).id]))
 
 \* no stale record can ever be read back: at quiescent points every record in a file is whole and belongs
 \* to the true history
